@@ -4,6 +4,7 @@ import (
 	"bytes"
 	"fmt"
 	"os"
+	"os/exec"
 	"path/filepath"
 	"sort"
 	"strings"
@@ -38,6 +39,10 @@ var c13Hand = []string{
 	"(str 12) 0b101 0o17 1_000 1.5 .5 5. \n",
 	"(== 'x' 'y') (!= a b) (<= a b) (>= a b) (** a b) (:= a 1) (+= a 1) (-= a 1) (++ a) (-- a)\n",
 	"true false nil NaN Inf -Inf \n",
+	"{ // settings\n a: 1 b: 2}\n",
+	"{ /* c */ a: 1 b: [1 2]}\n{\n// c1\n// c2\n k: \"v\"}\n",
+	"(def h { // c\n a: 1}) {// lead\n x + 1}\n",
+	"{ // only a comment before the closing brace\n}\n(f {/*c*/})\n",
 }
 
 var (
@@ -219,17 +224,17 @@ func init() {
 			"(a) chunk invariance: every single cut position of every text exhaustively, every pair of cuts for texts <=40 (quick) / <=80 (thorough) bytes, and 3-6 random cuts: the expression list and error kind after the last piece must equal those of the whole text; " +
 			"(b) pause correctness: an intermediate ParseTokens must report more-input iff a bracket/string/raw-string/block-comment classifier says the delivered prefix is unfinished, and never a hard error; " +
 			"(c) history independence: after histories of 1-4 earlier loads (complete texts ending in every rune class, lexer errors mid-token, unbalanced closers, unfinished then abandoned input, evaluated or only parsed) the interpreter's own parser and EvalString must read a probe text exactly like a fresh interpreter; the same after loading and abandoning EVERY prefix of three token-rich texts (stopping the lexer inside escapes, exponents, multi-rune operators, comment openers, raw strings), each followed by 18 rich probes; " +
-			"(d) last token: a text ending in an atom without trailing whitespace must give the same expressions as the text plus a newline. non-trivial = distinct (text, kind) whose text has >=2 top-level expressions or a nested bracket",
+			"(d) last token: a text ending in an atom without trailing whitespace must give the same expressions as the text plus a newline, also when it is the content of a file read by include and by source; (e) long one-line and multi-line expressions (5-17 kB) fed to the real REPL must print what the text evaluates to. non-trivial = distinct (text, kind) whose text has >=2 top-level expressions or a nested bracket",
 		Assumptions: []string{
 			"(b) is judged only at cut positions the 60-line prefix classifier models with certainty (not inside char literals, not at a lone trailing '/', not inside a line comment)",
 			"only texts that are complete and valid as a whole are cut",
 		},
 		NCases: func(c *core.Ctx) int {
-			return 4*len(c13Texts(c)) + thorN(c, 1500, 20000) + c13PrefixCases()
+			return 4*len(c13Texts(c)) + thorN(c, 1500, 20000) + c13PrefixCases() + c13ReplCases
 		},
 		Chunk:    100,
 		Sanitize: true,
-		MustSee:  []string{"single_cuts", "double_cuts", "pause_decisions", "history_probes", "last_token_probes", "abandoned_prefix_histories"},
+		MustSee:  []string{"single_cuts", "double_cuts", "pause_decisions", "history_probes", "last_token_probes", "abandoned_prefix_histories", "last_token_file_probes", "repl_long_lines"},
 		Run:      c13Run,
 	})
 }
@@ -265,6 +270,9 @@ func c13Run(c *core.Ctx, i int) *core.Result {
 	texts := c13Texts(c)
 	nt := len(texts)
 	res := &core.Result{}
+	if i >= 4*nt+thorN(c, 1500, 20000)+c13PrefixCases() {
+		return c13ReplLong(c, i-4*nt-thorN(c, 1500, 20000)-c13PrefixCases())
+	}
 	if i >= 4*nt+thorN(c, 1500, 20000) {
 		return c13PrefixHistory(c, i-4*nt-thorN(c, 1500, 20000))
 	}
@@ -407,6 +415,33 @@ func c13Run(c *core.Ctx, i int) *core.Result {
 			if xs != ys {
 				res.Violate("last-token-lost:"+c13TailClass(tt), fmt.Sprintf("EvalString(%q) gives %s but with a final newline it gives %s", tt, OutStr(x), OutStr(y)), tt)
 				break
+			}
+			// the same text read from a file that does not end in a newline, by include and by source
+			if k%3 == 1 && y.Err == nil && !strings.Contains(tt, "(def ") && !strings.Contains(tt, "(defn ") {
+				path := filepath.Join(c.Work, fmt.Sprintf("c13-last-%d-%d.zy", i, k))
+				os.MkdirAll(c.Work, 0755)
+				os.WriteFile(path, []byte(tt), 0644)
+				bad := false
+				for _, form := range []string{"include", "source"} {
+					e3 := NewSutRun(true)
+					e3.Eval("(def zq9 99)\n", 0)
+					z := e3.Eval(fmt.Sprintf("(%s %q)\n", form, path), 300000)
+					res.Evals++
+					res.Ev("last_token_file_probes", 1)
+					zs := OutStr(z)
+					if z.Err != nil {
+						zs = "ERR"
+					}
+					if zs != ys {
+						res.Violate("last-token-lost:via-"+form, fmt.Sprintf("(%s f) of a file holding %q (no final newline) gives %s; the text evaluates to %s", form, tt, OutStr(z), OutStr(y)), tt)
+						bad = true
+						break
+					}
+				}
+				os.Remove(path)
+				if bad {
+					break
+				}
 			}
 			if k > 0 && x.Err == nil {
 				want := []string{"", "12", "99", "\"tail\"", "c:99", "[1 2]", "", "-7", "f:2.5"}[k]
@@ -587,6 +622,64 @@ func c13PrefixHistory(c *core.Ctx, k int) *core.Result {
 				}
 			}
 		}
+	}
+	return res
+}
+
+// The REPL's line reader delivers the text in pieces of its own (physical lines, and parts of
+// lines longer than its buffer): a long one-line expression and a long multi-line expression fed
+// to the real cmd/zygo REPL must print what EvalString computes for the same text.
+const c13ReplCases = 6
+
+func c13ReplLong(c *core.Ctx, k int) *core.Result {
+	res := &core.Result{Nontrivial: true}
+	var b strings.Builder
+	want := int64(0)
+	n := []int{700, 1300, 2100, 600, 900, 1700}[k%6] // 8-byte items: lines of 4.8 to 17 kB
+	switch k % 3 {
+	case 0: // one physical line of numbers
+		b.WriteString("(+")
+		for j := 0; j < n; j++ {
+			v := int64(1000000 + (j*7919)%8999999)
+			fmt.Fprintf(&b, " %d", v)
+			want += v
+		}
+		b.WriteString(")")
+	case 1: // one physical line holding a long string literal and its length
+		b.WriteString("(len \"")
+		for j := 0; j < n; j++ {
+			b.WriteString("abcdefg ")
+		}
+		b.WriteString("\")")
+		want = int64(8 * n)
+	case 2: // the same sum spread over many short lines with one very long line in the middle
+		b.WriteString("(+ 1\n 2\n")
+		want = 3
+		for j := 0; j < n; j++ {
+			v := int64(2000000 + (j*104729)%7999999)
+			fmt.Fprintf(&b, " %d", v)
+			want += v
+		}
+		b.WriteString("\n 4\n)")
+		want += 4
+	}
+	text := b.String()
+	res.Input = core.Trunc(text, 300)
+	res.Hash = core.HashOf(text)
+	zygoBin := filepath.Join(c.BinDir, "zygo")
+	cmd := exec.Command(zygoBin, "-no-liner", "-quiet")
+	cmd.Stdin = strings.NewReader(text + "\n")
+	cmd.Dir = c.Work
+	os.MkdirAll(c.Work, 0755)
+	out, err := cmd.CombinedOutput()
+	res.Evals++
+	res.Ev("repl_long_lines", 1)
+	if err != nil && len(out) == 0 {
+		res.Verdict, res.Key, res.Detail = core.Inconclusive, "repl-could-not-run", err.Error()
+		return res
+	}
+	if !strings.Contains(string(out), fmt.Sprint(want)) {
+		res.Violate("repl-line-pieces-change-result", fmt.Sprintf("a %d-byte expression fed to the REPL must print %d; the REPL printed %s", len(text), want, core.Trunc(string(out), 400)), core.Trunc(text, 2000))
 	}
 	return res
 }
